@@ -156,6 +156,8 @@ def _case_h2(rng, tier, n):
         req = G.gen_request(rng, tag, "2", tier, body_sizes=[0, 1, 2, 17, 1024, 9000] if small else None)
         req["sid"] = sid
         req["h2_host_too"] = rng.random() < 0.1
+        # a stand-alone PRIORITY frame for the still idle stream ahead of the HEADERS that open it (RFC 7540 5.3): the request is a request
+        req["prio_first"] = rng.random() < 0.1
         if names_case:
             req["authority"] = names_case(req["authority"])
         req["complete"] = True
@@ -179,6 +181,8 @@ def _case_h2(rng, tier, n):
             target = req["path"] + (b"?" + req["query"] if req["query"] is not None else b"")
             hdrs = [(b":method", req["method"].encode()), (b":scheme", b"https" if tls else b"http"),
                     (b":path", target), (b":authority", req["authority"])] + ([(b"host", req["authority"])] if req.get("h2_host_too") else []) + list(req["headers"])
+            if req.get("prio_first"):
+                blob += fb.priority(req["sid"], dep=0, weight=rng.randrange(256))
             blob += fb.headers(req["sid"], hdrs, end_stream=(len(req["body"]) == 0))
             q, off = [], 0
             for k in req["frame_sizes"]:
